@@ -37,6 +37,11 @@ func genDec(t *rapid.T) core.Dec {
 		return core.Dec{Coeff: "0", Neg: rapid.Bool().Draw(t, "neg"), Exp: int32(rapid.SampledFrom([]int{-2001, -2000, -1999, -8, -7, -6, -5, -1, 0, 1, 3}).Draw(t, "ze"))}
 	}
 	d := core.Dec{Coeff: gen.Digits(t, 45, "c"), Neg: rapid.Bool().Draw(t, "neg")}
+	if gen.Pick(t, 30, "extexp") == 0 {
+		// formatting never computes a power of ten: the whole int32 exponent field is fair game
+		d.Exp = []int32{2147483647, -2147483648, 2147483646, -2147483647, 2147483600, -2147483600}[gen.Pick(t, 6, "extv")]
+		return d
+	}
 	if gen.Pick(t, 12, "long") == 0 {
 		// non-zero coefficients around the -2000 cut-off that the zero exception uses, so
 		// that the cut-off is seen to apply to zeros only
@@ -176,6 +181,9 @@ func genCase(t *rapid.T) Case {
 			}
 		}
 		c.Width = rapid.IntRange(0, 40).Draw(t, "width")
+		if gen.Pick(t, 12, "wide") == 0 {
+			c.Width = rapid.IntRange(41, 400).Draw(t, "widewidth")
+		}
 		if c.Verb == "f" || c.Verb == "F" {
 			if c.X.Exp > 300 || c.X.Exp < -300 {
 				c.X.Exp = int32(rapid.IntRange(-20, 20).Draw(t, "fe"))
